@@ -140,7 +140,7 @@ class ExcHierarchy:
 class Event:
     __slots__ = ("known", "handlers", "kind", "node", "func", "depth", "fterm", "args", "kwargs", "targets", "result",
                  "ext", "sched", "cb", "cbargs", "cbkwargs", "delay", "in_comp", "raised",
-                 "target", "value", "frame", "inlined", "recv", "seq", "attrname", "coro", "loopdepth")
+                 "target", "value", "frame", "inlined", "recv", "seq", "attrname", "coro", "loopdepth", "helper")
 
     def __init__(self, kind, node, func, depth):
         self.kind = kind
@@ -164,6 +164,7 @@ class Event:
         self.value = None
         self.frame = ()
         self.inlined = False
+        self.helper = None  # the unknown helper function analysed in place at this call (then targets is empty)
         self.recv = None
         self.seq = 0
         self.attrname = None
@@ -1464,7 +1465,23 @@ class Engine:
                     return op in ("is not", "!=")
                 if l[0] == "const":
                     return (l[1] is None) == (op in ("is", "=="))
+                if l[0] == "call" and l[1][0] in ("bound", "func") and self._never_returns_none(l[1][-1]):
+                    return op in ("is not", "!=")
         return None
+
+    def _never_returns_none(self, qual: str) -> bool:
+        """the callee's declared return type excludes None (and it is no coroutine / generator)"""
+        fi = self.prog.functions.get(qual)
+        if fi is None or fi.node.returns is None or fi.is_async:
+            return False
+        txt = ast.unparse(fi.node.returns)
+        if "None" in txt or "Optional" in txt or "Any" in txt or txt in ("object",):
+            return False
+        # every return statement returns a value
+        for n in ast.walk(fi.node):
+            if isinstance(n, ast.Return) and (n.value is None or (isinstance(n.value, ast.Constant) and n.value.value is None)):
+                return False
+        return True
 
     def _pure(self, c) -> bool:
         # call terms carry their evaluation identity (site + iteration stamp) and denote one value
@@ -2191,6 +2208,10 @@ class Engine:
 
     def _inline(self, callee: FuncInfo, recv, rc, args, kwargs, e: Event, node, s: _State, fi, depth, ch):
         e.inlined = True
+        if self.is_unknown_helper(callee) and self.policy.transparent_helpers:
+            # the call of an extracted helper is not an action of its own: rules see the helper's body instead
+            e.helper = callee
+            e.targets = []
         sub = _State()
         sub.heap = dict(s.heap)
         sub.known = dict(s.known)
